@@ -17,6 +17,8 @@ THEOREMS = [
     "Ts.Stage.C09_slab_mutation_invisible",
     "Ts.Stage.C09_equiv_sync",
     "Ts.Stage.C09_witness_alias_prefix",
+    "Ts.Stage.C09_no_staging_after_handover",
+    "Ts.Stage.C09_handover_stable",
 ]
 BUDGET_S = (150, 900)
 RULE = ("(a) real Snapshot.async_take of random nested states (all dtypes/layouts, objects, primitives) on in-memory storage with "
